@@ -65,8 +65,11 @@ def mon_replies(session, ev, name, before, out_i, crash_i):
 
 
 # ----------------------------------------------------------------------------- C08
-def _data_view(st, now):
-    return (I.live_view(st, now), st['tables'])
+def _data_view(st, now, closed=()):
+    # subscriptions of closed connections disappear with the next processed command (deferred close): not a change
+    tables = {n: [(ch, [c for c in ids if c not in closed]) for ch, ids in t] for n, t in st['tables'].items()}
+    tables = {n: [(ch, ids) for ch, ids in t if ids] for n, t in tables.items()}
+    return (I.live_view(st, now), tables)
 
 
 def mon_error_nochange(session, ev, name, before, out_i, crash_i):
@@ -77,11 +80,12 @@ def mon_error_nochange(session, ev, name, before, out_i, crash_i):
         return
     after = session.impl.snapshot_struct()
     now = after['now']
-    if _data_view(before, now) != _data_view(after, now):
+    closed = {k for k, x in after['conns'].items() if x['closed']}
+    if _data_view(before, now, closed) != _data_view(after, now, closed):
         add(session, 'C08', 'error_changes_nothing',
             'error %r but data changed: before=%s after=%s' % (mine[0].value, I.live_view(before, now), I.live_view(after, now)))
     for k, x in after['conns'].items():
-        if k != c and before['conns'].get(k) is not None:
+        if k != c and before['conns'].get(k) is not None and not x['closed'] and not before['conns'][k]['closed']:
             b, a = before['conns'][k], x
             if (b['tx'], b['failed'], b['wn'], b['watch']) != (a['tx'], a['failed'], a['wn'], a['watch']):
                 add(session, 'C08', 'error_changes_nothing', 'error reply changed transaction state of connection %d' % k)
@@ -171,3 +175,207 @@ def encode(fields):
     for f in fields:
         out += b'$%d\r\n%s\r\n' % (len(f), f)
     return out
+
+
+# ----------------------------------------------------------------------------- C03
+def mon_zset_inv(session, ev, name, before, out_i, crash_i):
+    """every stored sorted set: byscore strictly ascending by (score, member), both indexes agree, no NaN"""
+    import math
+    from fakeredis._zset import ZSet
+    for i, db in session.impl.srv.dbs.items():
+        for k, it in db._dict.items():
+            z = it.value
+            if isinstance(z, ZSet):
+                bs = list(z._byscore)
+                if any(math.isnan(s) for s, m in bs):
+                    add(session, 'C03', 'zadd_never_nan', 'NaN score stored in %r' % k)
+                if any(not (a < b) for a, b in zip(bs, bs[1:])):
+                    add(session, 'C03', 'zset_inv', 'byscore of %r not strictly ascending: %r' % (k, bs))
+                if sorted((m, s) for s, m in bs) != sorted(z._bylex.items()) or len(set(m for s, m in bs)) != len(bs):
+                    add(session, 'C03', 'zset_inv', 'indexes of %r disagree' % k)
+
+
+# ----------------------------------------------------------------------------- C06
+DBWIDE = {'flushdb', 'flushall', 'swapdb'}
+
+
+def mon_watch(session, ev, name, before, out_i, crash_i):
+    """EXEC nil if a watched entry changed since WATCH; EXEC proceeds if no command touched a watched key"""
+    if before is None:
+        return
+    log = session.__dict__.setdefault('watchlog', {})
+    after = session.impl.snapshot_struct()
+    now = after['now']
+    c, fields = ev[1], ev[2]
+    lb, la = I.live_view(before, now), I.live_view(after, now)
+    lb_then = I.live_view(before)
+
+    def entry(view, d, khex):
+        for k, v, e in view.get(d, []):
+            if k == khex:
+                return (v, e)
+        return None
+    # judgement for an EXEC issued now (uses the tracking state accumulated BEFORE this event)
+    mine = out_i.get(c, [])
+    if name == 'exec' and len(mine) == 1 and before['conns'][c]['tx'] != '-':
+        track = log.get(c, {})
+        r = mine[0]
+        if not isinstance(r, RawError):
+            watched = before['conns'][c]['watch']
+            st = [track.get(w) for w in watched if w in track]
+            if r is None:
+                if st and not any(x['touched'] or x['tainted'] for x in st):
+                    add(session, 'C06', 'untouched_proceeds', 'EXEC aborted although no command addressed %r' % watched)
+            else:
+                for w in watched:
+                    x = track.get(w)
+                    if x and x['changed'] and not x['tainted']:
+                        add(session, 'C06', 'watched_change_aborts', 'EXEC ran although watched %s changed since WATCH' % w)
+    # update tracking with the effect of this event
+    named = {f.hex() for f in fields[1:]}
+    if name == 'exec':
+        named |= session.__dict__.get('queued_args', {}).pop(c, set())
+    elif before['conns'][c]['tx'] != '-' and mine == [b'QUEUED']:
+        session.__dict__.setdefault('queued_args', {}).setdefault(c, set()).update(named)
+        named = set()
+    if name == 'discard':
+        session.__dict__.get('queued_args', {}).pop(c, None)
+    for k, x in after['conns'].items():
+        tr = log.setdefault(k, {})
+        for w in list(tr):
+            if w not in x['watch']:
+                del tr[w]
+        for w in x['watch']:
+            d, khex = w.split('/')
+            d = int(d)
+            if w not in tr:
+                tr[w] = {'changed': False, 'touched': False, 'tainted': False}
+                continue
+            if entry(lb, d, khex) != entry(la, d, khex):
+                tr[w]['changed'] = True
+            # an entry that was live before and fell to its deadline: outside the property's premise
+            eb = entry(lb_then, d, khex)
+            if eb is not None and eb[1] is not None and eb[1] < now:
+                tr[w]['tainted'] = True
+            if khex in named or name in DBWIDE or (name == 'exec'):
+                tr[w]['touched'] = True
+
+
+# ----------------------------------------------------------------------------- C10
+def mon_pubsub(session, ev, name, before, out_i, crash_i):
+    """reference bookkeeping of subscriptions; PUBLISH deliveries and count; acknowledgements"""
+    import funcs as Fn
+    ref = session.__dict__.setdefault('pubsub_ref', {'ch': {}, 'pat': {}})     # name -> ordered list of conns
+    c, fields = ev[1], ev[2]
+    if crash_i is not None or (before is not None and before['conns'][c]['dead']):
+        return     # an escaped exception is judged by C04; a dead connection is outside this property
+    mine = out_i.get(c, [])
+    # drop closed connections (their subscriptions disappear with the next processed command)
+    closed = session.impl.closed
+    for tbl in (ref['ch'], ref['pat']):
+        for k in tbl:
+            tbl[k] = [x for x in tbl[k] if x not in closed]
+    if before is None or before['conns'][c]['tx'] != '-' and name not in ('exec',):
+        return
+    if len(mine) == 1 and isinstance(mine[0], RawError):
+        return
+
+    def count(conn):
+        return sum(1 for t in (ref['ch'], ref['pat']) for v in t.values() if conn in v)
+
+    def do(nm, args, replies, conn):
+        """apply one pub/sub command to the reference; returns expected replies to `conn` and pushes to others"""
+        exp_self, pushes = [], {}
+        if nm in ('subscribe', 'psubscribe'):
+            tbl = ref['ch'] if nm == 'subscribe' else ref['pat']
+            for a in args:
+                lst = tbl.setdefault(a, [])
+                if conn not in lst:
+                    lst.append(conn)
+                exp_self.append([nm.encode(), a, count(conn)])
+        elif nm in ('unsubscribe', 'punsubscribe'):
+            tbl = ref['ch'] if nm == 'unsubscribe' else ref['pat']
+            names = list(args) if args else [k for k, v in tbl.items() if conn in v]
+            if not names:
+                exp_self.append([nm.encode(), None, count(conn)])
+            for a in names:
+                if a in tbl and conn in tbl[a]:
+                    tbl[a].remove(conn)
+                    if not tbl[a]:
+                        del tbl[a]
+                exp_self.append([nm.encode(), a, count(conn)])
+        elif nm == 'publish' and len(args) == 2:
+            ch, msg = args
+            n = 0
+            for k in ref['ch'].get(ch, []):
+                pushes.setdefault(k, []).append([b'message', ch, msg])
+                n += 1
+            for pat, lst in ref['pat'].items():
+                if ch and Fn.redis_glob(pat, ch) or (not ch and Fn.impl_glob(pat, ch)):
+                    for k in lst:
+                        pushes.setdefault(k, []).append([b'pmessage', pat, ch, msg])
+                        n += 1
+            exp_self.append(n)
+        return exp_self, pushes
+
+    if name in ('subscribe', 'psubscribe', 'unsubscribe', 'punsubscribe', 'publish'):
+        if name == 'publish' and before['conns'][c]['pubsub'] > 0:
+            return
+        exp_self, pushes = do(name, fields[1:], mine, c)
+        got_self = [r for r in mine if not (isinstance(r, list) and r and r[0] in (b'message', b'pmessage'))] if name == 'publish' else mine
+        if name == 'publish':
+            pushes_self = pushes.pop(c, [])
+            got_push_self = [r for r in mine if isinstance(r, list) and r and r[0] in (b'message', b'pmessage')]
+            if got_push_self != pushes_self:
+                add(session, 'C10', 'publish_delivery', 'publisher %d itself got %r expected %r' % (c, got_push_self, pushes_self))
+        if got_self != exp_self:
+            add(session, 'C10', 'acks_or_count', '%r: got %r expected %r' % (fields, got_self, exp_self))
+        for k in set(list(pushes) + [x for x in out_i if x != c]):
+            if out_i.get(k, []) != pushes.get(k, []):
+                add(session, 'C10', 'publish_delivery', 'connection %d got %r expected %r' % (k, out_i.get(k, []), pushes.get(k, [])))
+    elif name == 'exec' and len(mine) >= 1:
+        # publications inside MULTI are delivered at EXEC: replay the queued pub/sub commands on the reference
+        q = session.__dict__.get('exec_queue', {}).pop(c, [])
+        allp = {}
+        for qf in q:
+            qn = Cn.name_of(qf)
+            if qn == 'publish' and len(qf) == 3:
+                _, pushes = do(qn, qf[1:], None, c)
+                for k, v in pushes.items():
+                    allp.setdefault(k, []).extend(v)
+            elif qn in SUBFAMILY:
+                return   # known finding territory (F11); not judged here
+        for k in set(list(allp) + [x for x in out_i if x != c]):
+            if k != c and out_i.get(k, []) != allp.get(k, []):
+                add(session, 'C10', 'publish_in_multi_delivered_at_exec', 'connection %d got %r expected %r' % (k, out_i.get(k, []), allp.get(k, [])))
+
+
+def mon_track_queue(session, ev, name, before, out_i, crash_i):
+    """remember the raw queued requests per connection (used by the EXEC clauses of other monitors)"""
+    c, fields = ev[1], ev[2]
+    mine = out_i.get(c, [])
+    q = session.__dict__.setdefault('exec_queue', {})
+    if name == 'multi' and mine == [b'OK']:
+        q[c] = []
+    elif name == 'discard':
+        q.pop(c, None)
+    elif mine == [b'QUEUED'] and c in q:
+        q[c].append(fields)
+
+
+# ----------------------------------------------------------------------------- C13
+CROSS_DB = {'move', 'swapdb', 'flushall', 'exec', 'eval', 'evalsha'}
+
+
+def mon_db_frame(session, ev, name, before, out_i, crash_i):
+    """a command only reads or writes the database selected on its connection (except MOVE, SWAPDB, FLUSHALL)"""
+    if before is None or name in CROSS_DB:
+        return
+    c = ev[1]
+    after = session.impl.snapshot_struct()
+    now = after['now']
+    lb, la = I.live_view(before, now), I.live_view(after, now)
+    d = before['conns'][c]['db']
+    for i in set(lb) | set(la):
+        if i != d and lb.get(i, []) != la.get(i, []):
+            add(session, 'C13', 'frame_other_dbs', '%r on db %d changed db %d' % (ev[2], d, i))
